@@ -9,7 +9,7 @@
     the recorded digest, child lists installed); a new document extends the one it replaces; closed
     shards and metadata are never opened for writing again.  The real traces of the library are
     checked against [discipline] on every run (this very boolean is evaluated on them by coqc). *)
-Require Import Sedpack.Model.Base Sedpack.Model.Crash Sedpack.Proofs.CrashProofs.
+Require Import Sedpack.Model.Base Sedpack.Model.Crash Sedpack.Proofs.CrashProofs Sedpack.Proofs.PublishProofs.
 Require Import Sedpack.Generated.GenMerge Sedpack.Generated.GenFiller Sedpack.Model.Filler Sedpack.Model.Meta Sedpack.Proofs.LogProofs.
 
 (** Under the discipline EVERY prefix of the trace leaves a consistent disk: every metadata path
@@ -47,6 +47,25 @@ Theorem c06_every_cut_is_closed :
     (forall sh, List.In sh (sl_files s) -> has_shard (cut v fs) sh v) /\ (forall c, List.In c (sl_children s) -> has_list (cut v fs) (li_dir c) v).
 Proof. exact every_cut_is_closed. Qed.
 Print Assumptions c06_every_cut_is_closed.
+
+(** The bridge between the two levels.  Seen at the effect level, a session is a sequence of PUBLICATIONS: a new shard file
+    ([Create; Write; Close]) or a metadata file replaced through a temporary ([Create tmp; Write; Close; Rename] — the shape of
+    [safe_update_file], pinned from the source).  If every publication, on the disk as it is when it starts, (i) uses a fresh path,
+    (ii) references only complete files already there, (iii) keeps what the document it replaces referenced ([pubs_ok], executable),
+    then the whole effect trace obeys the discipline, hence every crash point inside it is consistent.  (ii) is what
+    [c06_every_history_publishes_in_order] establishes for every history of the session model, (iii) what
+    [c08_history_appends_only] establishes, (i) is the uuid / time-stamped temporary name. *)
+Theorem c06_publications_obey_the_discipline :
+  forall (kind_of : path -> kind) (xs : list (pub)) (d : disk),
+    pubs_ok kind_of d xs = true -> discipline kind_of d (flat_map compile xs) = true.
+Proof. exact publications_disciplined. Qed.
+Print Assumptions c06_publications_obey_the_discipline.
+
+Theorem c06_publications_crash_consistent :
+  forall (kind_of : path -> kind) (xs : list pub) (d : disk) (n : nat),
+    Consistent kind_of d -> pubs_ok kind_of d xs = true -> Consistent kind_of (apply_all (firstn n (flat_map compile xs)) d).
+Proof. exact publications_crash_consistent. Qed.
+Print Assumptions c06_publications_crash_consistent.
 
 (** Non-vacuity: the trace of a small session (shard, list temp + rename, description temp +
     rename) satisfies the discipline; writing the list file in place, or renaming before the
